@@ -410,3 +410,44 @@ func c10CollapseThrough(c *core.Check) {
 	check("no bottom padding", atomsOf["PaddingBottom"])
 	check("no clearance", clearance)
 }
+
+// c10Provenance: two values whose origin matters in the margin code.
+func c10Provenance(c *core.Check) {
+	p := c.Prog
+	r := c.Rule("R12", "values used by the margin logic have the origin CSS 2.1 gives them: clearance is computed against the collapsed margin (every getClearance call of the block layout receives a result of collapseMargin, the float layout a constant 0), and blockContainerLayout decides whether margins adjoin from the used height of the box (box.Height against auto), never from the computed `height` keyword (a percentage height that computes to auto is auto)", 4)
+	gc := p.Fn("html/layout", "getClearance")
+	if gc == nil {
+		r.Anchor("html/layout.getClearance")
+	} else {
+		sites, _ := p.CallSitesOf(gc)
+		for i, cs := range sites {
+			arg := cs.Common().Args[2]
+			key := fmt.Sprintf("%s | getClearance(…, %s) #%d", core.FuncName(cs.Parent()), exprName(arg), i+1)
+			if k, ok := arg.(*ssa.Const); ok {
+				f, isF := core.ConstFloat(k)
+				r.Cond(isF && f == 0, key, p.Pos(cs.Pos()), "no margin above (constant 0)", "a non-zero constant margin")
+				continue
+			}
+			ok := core.DerivesFrom(arg, func(v ssa.Value) bool {
+				call, isCall := v.(*ssa.Call)
+				return isCall && call.Call.StaticCallee() != nil && call.Call.StaticCallee().Name() == "collapseMargin"
+			})
+			r.Cond(ok, key, p.Pos(cs.Pos()), "the collapsed margin", "the margin handed to getClearance is not a result of collapseMargin: the hypothetical position used for clearance and the position computed afterwards disagree when margins adjoin above the box")
+		}
+	}
+	if fn := p.Fn("html/layout", "blockContainerLayout"); fn == nil {
+		r.Anchor("html/layout.blockContainerLayout")
+	} else {
+		n := 0
+		bad := ""
+		core.Instrs(fn, func(in ssa.Instruction) {
+			call, ok := in.(*ssa.Call)
+			if !ok || !call.Call.IsInvoke() || call.Call.Method.Name() != "GetHeight" {
+				return
+			}
+			n++
+			bad = p.Pos(call.Pos())
+		})
+		r.Cond(n == 0, "html/layout.blockContainerLayout | used height decides", p.Pos(fn.Pos()), "the computed height is never consulted", "the computed `height` is read at "+bad+": a percentage height resolved to auto would be treated as a definite height by the margin logic")
+	}
+}
